@@ -1743,6 +1743,8 @@ package log
 //@ spec fun nPieces(T string) int = split_count(T, ',')
 // how many of the first j entries of a tag list are non-blank: the position at which entry j is recorded
 //@ spec rec fun nbp(T string, j int) int = j <= 0 ? 0 : nbp(T, j - 1) + (tagPiece(T, j - 1) != "" ? 1 : 0)
+// a tag list with at least one non-blank entry
+//@ spec fun listsATag(T string) bool = exists j int :: { split_piece(T, ',', j) } 0 <= j && j < nPieces(T) && tagPiece(T, j) != ""
 //@ func Refresh
 //@   callee findLoggerForTag = Refresh/findLoggerForTag
 //@   requires regWF() && regTagged() && propsWF() && liveListsWF()
@@ -1761,6 +1763,7 @@ package log
 //@   ensures[C16:every-tag-is-served] result == nil ==> (forall t string :: has(tagRegistry, t) ==> tagRegistry[t].logger != nil)
 //@   ensures[C02:every-tag-routed] result == nil ==> (forall t string :: has(tagRegistry, t) ==> tagRegistry[t].logger == route(cfgTags, cfgRoot, t))
 //@   ensures[C02:listed-tags-are-served-by-their-logger] result == nil ==> (forall n string, j int :: { wit(n), witi(j) } wit(n) && witi(j) && has(cfgLoggers, n) && n != "root" && 0 <= j && j < nPieces(tagsOf(cfgLoggers[n])) && tagPiece(tagsOf(cfgLoggers[n]), j) != "" ==> has(cfgTags, tagPiece(tagsOf(cfgLoggers[n]), j)) && cfgTags[tagPiece(tagsOf(cfgLoggers[n]), j)] == cfgLoggers[n])
+//@   ensures[C02:every-other-logger-lists-a-tag] result == nil ==> (forall n string :: { wit(n) } wit(n) && has(cfgLoggers, n) && n != "root" ==> listsATag(tagsOf(cfgLoggers[n])))
 //@   ensures[C02:a-configured-root-lists-no-tags] result == nil ==> isold(ifval(cfgRoot)) || tagsOf(cfgRoot) == ""
 //@   ensures[C02:table-entries-are-well-formed] result == nil ==> (forall t string :: { wit(t) } wit(t) && has(cfgTags, t) ==> t != "" && !malformedWildcard(t))
 //@   ensures[C12:every-handle-bound-by-name] result == nil ==> (forall n string :: has(loggerMap, n) ==> has(cfgLoggers, loggerMap[n].name) && loggerMap[n].logger == cfgLoggers[loggerMap[n].name] && loggerMap[n].logger != nil)
@@ -1777,9 +1780,11 @@ package log
 //@   loop 2 invariant[C02,C12,C15,C16:root-default-or-configured] isold(ifval(cLoggers["root"])) || (exists i int :: { slot(loggers, i) } 0 <= i && i < $k && loggers[i] == "root")
 //@   loop 2 invariant[C02,C12,C15,C16:listed-tags-so-far] forall t string :: { wit(t) } wit(t) && has(cTags, t) ==> cTags[t] != nil && !isold(ifval(cTags[t])) && (exists n string :: { wit(n) } wit(n) && has(cLoggers, n) && cLoggers[n] == cTags[t])
 //@   loop 2 invariant[C02:earlier-loggers-own-their-tags] forall i, j int :: { witi(i), witi(j) } witi(i) && witi(j) && 0 <= i && i < $k && loggers[i] != "root" && 0 <= j && j < nPieces(tagsOf(cLoggers[loggers[i]])) && tagPiece(tagsOf(cLoggers[loggers[i]]), j) != "" ==> has(cTags, tagPiece(tagsOf(cLoggers[loggers[i]]), j)) && cTags[tagPiece(tagsOf(cLoggers[loggers[i]]), j)] == cLoggers[loggers[i]]
+//@   loop 2 invariant[C02:earlier-loggers-list-a-tag] forall i int :: { witi(i) } witi(i) && 0 <= i && i < $k && loggers[i] != "root" ==> listsATag(tagsOf(cLoggers[loggers[i]]))
 //@   loop 2 invariant[C02:root-without-tags] (forall i int :: { witi(i) } witi(i) && 0 <= i && i < $k && loggers[i] == "root" ==> tagsOf(cLoggers["root"]) == "") && (isold(ifval(cRoot)) || tagsOf(cRoot) == "")
 //@   loop 2 invariant[C02:entries-well-formed] forall t string :: { wit(t) } wit(t) && has(cTags, t) ==> t != "" && !malformedWildcard(t)
 //@   rangefunc 1 invariant[C02:pieces] witi(len(tags)) && witi($k) && 0 <= $k && $k <= $n && $n == nPieces(base.Tags) && name != "root" && base.Tags == tagsOf(logger)
+//@   rangefunc 1 invariant[C02:a-recorded-entry-has-a-source] len(tags) > 0 ==> (exists j int :: { split_piece(base.Tags, ',', j) } 0 <= j && j < $k && tagPiece(base.Tags, j) != "")
 //@   rangefunc 1 invariant[C02:count-so-far] len(tags) == nbp(base.Tags, $k)
 //@   rangefunc 1 invariant[C02:listed-so-far] (forall j int :: { nbp(base.Tags, j) } { tagPiece(base.Tags, j) } 0 <= j && j < $k && tagPiece(base.Tags, j) != "" ==> 0 <= nbp(base.Tags, j) && nbp(base.Tags, j) < len(tags) && tags[nbp(base.Tags, j)] == tagPiece(base.Tags, j))
 //@   rangefunc 1 invariant[C02:recorded-so-far] forall m int :: { witi(m) } witi(m) && 0 <= m && m < len(tags) ==> tags[m] != "" && !malformedWildcard(tags[m])
